@@ -136,6 +136,7 @@ def drvSsCodec : SsCodec DrvSS where
     match f kN with
     | none => none
     | some n => some ⟨ssUseKeys.filterMap (fun k => (f (if k = [] then scope else k)).map (fun c => (k, c))), n⟩
+  nCell s := s.n
 
 /-- titles of moptipy's `EndStatistics` reader (a superset is harmless for the model: every title it may ask for) -/
 def esKeys : List Str :=
